@@ -799,7 +799,7 @@ func c18FormatNumber(r *fw.Rec, rr *prng.R) {
 
 // invalid pictures: classes whose invalidity is unambiguous in the XPath grammar
 func c18InvalidPicture(r *fw.Rec, rr *prng.R) {
-	bad := []string{"0.0.0", "0%%", "0%‰", "0‰‰", "abc", "", ";", "0;0;0", "0,.0", "0.,0", "0,,0", "0,", "0#", "#0#", "0.#0", "0.0#0", "0e0e0", "0%e0", "0e0%", "0 0", "#x#", "0.0x0", "0e#", "‰0e00", ";0", "0;"}
+	bad := []string{"0.0.0", "0%%", "0%‰", "0‰‰", "abc", "", ";", "0;0;0", "0,.0", "0.,0", "0,,0", "0,", "0#", "#0#", "0.#0", "0.0#0", "0e0e0", "0%e0", "0e0%", "0 0", "#x#", "0.0x0", "0e#", "‰0e00", ";0", "0;", "0#0", "0#,##0.00", "00#0%", "#0#0", "0.0#0#", "0.#0#", "0#0.0"}
 	pic := bad[rr.Intn(len(bad))]
 	x := c18Doubles(rr)
 	if !strings.Contains(pic, ";") && pic != "" && rr.Intn(3) == 0 {
